@@ -346,6 +346,11 @@ def oneof_programs():
     out += variants(p, [[R({'K1': ['raise:E3'], 'L1': ['raise:E3']})], [R({'K1': ['raise:E3']})], [R({'L1': ['raise:E1']})],
                         [R({'K1': ['raise:E3'], 'L1': ['raise:E3'], 'L2': ['raise:E2']})]],
                     ['k1_l1', 'k1', 'l1', 'k1_l1_l2'])
+    # two candidates share a private ancestor Y; the first candidate's other ancestor F fails while Y is still running
+    nodes = [N('A'), N('F', I('p1', 'A')), N('Y', I('p1', 'A')), N('K1', I('p1', 'F'), I('p2', 'Y')), N('K2', I('p1', 'Y')),
+             N('O', OO('p1', ['K1', 'K2']))]
+    p = P('oneof_shared_private_ancestor', nodes, 'A', 'O', tags=['oneof', 'shared'])
+    out += variants(p, [[R({'F': ['raise:E1']})], [R({})], [R({'Y': ['raise:E1']})]], ['ffails', 'ok', 'yfails'])
     # retry inside a candidate
     nodes = [N('A'), N('K1', I('p1', 'A'), attempts=2), N('K2', I('p1', 'A')), N('O', OO('p1', ['K1', 'K2']))]
     p = P('oneof_retry', nodes, 'A', 'O', tags=['oneof', 'retry'])
@@ -435,6 +440,13 @@ def rec_programs():
     nodes = [N('A'), N('S', I('p1', 'A')), N('D', I('p1', 'S'), use_default=True), N('O', RC('p1', 'S', 'D', 1))]
     out += variants(P('rec_falsy_payload_default', nodes, 'A', 'O', tags=['rec']),
                     [[R(recreq={'D': 1}, recfalsy=['D'])]], ['falsy'])
+    # a one-of inside a recurrent sub-graph: the sub-graph is built from the unfiltered graph, so on re-iteration both
+    # candidates are ordinary members (finding D9, same mechanism as the switch inside a recurrent sub-graph)
+    nodes = [N('A'), N('S', I('p1', 'A')), N('K1', I('p1', 'S')), N('K2', I('p1', 'S')), N('M', OO('p1', ['K1', 'K2'])),
+             N('D', I('p1', 'M')), N('O', RC('p1', 'S', 'D', 2))]
+    out += variants(P('oneof_inside_rec', nodes, 'A', 'O', tags=['rec', 'oneof', 'D9']),
+                    [[R({'K1': ['raise:E1']}, recreq={'D': 1})], [R({}, recreq={'D': 1})], [R({'K1': ['raise:E1']}, recreq={'D': 0})]],
+                    ['k1fails_it1', 'ok_it1', 'k1fails_it0'])
     # D8: outside reader of an inside node, deeper than the destination
     nodes = [N('A'), N('S', I('p1', 'A')), N('M', I('p1', 'S')), N('D', I('p1', 'M')),
              N('Q1', I('p1', 'A')), N('Q2', I('p1', 'Q1')), N('Q3', I('p1', 'Q2')), N('Q4', I('p1', 'Q3')),
